@@ -163,6 +163,15 @@ pub fn run(cfg: &Cfg) {
         for k in KINDS {
             one(&mut out, k, &s, idx.len() <= 3);
         }
+        // the same string as every kind of name, in the other order too (a verdict must not depend on what was validated before)
+        if idx.len() <= 3 {
+            for k in KINDS.iter().rev() {
+                let v = imp(k, &s);
+                if v != spec(k, &s) {
+                    out.violation(&format!("c08.v {} {}", k, cps(&s)), &format!("validate_{}({:?}) = {} after the same string was validated as the other kinds of name; the specification says {}", k, s, v, !v));
+                }
+            }
+        }
         // next string (length-lexicographic)
         let mut i = idx.len();
         loop {
